@@ -28,6 +28,8 @@ type Knobs struct {
 	Sticky     int   `json:"sticky,omitempty"` // bias (0..100 %) towards continuing the task that ran last
 	IdleCap    int64 `json:"idleCapMs,omitempty"`
 	Dump       bool  `json:"dump,omitempty"` // engine dumps internal state after every reply (turn mode)
+	// Order, when set, fixes whose script advances next (one client index per consumed item); used by minimised replays
+	Order []int `json:"order,omitempty"`
 }
 
 // Client is a scripted connection (or, with Admin, a sequence of lifecycle operations).
